@@ -257,7 +257,7 @@ def main(ctx):
     # (c) free running, -race: the whole menu, plus focused menus in fresh processes (first use of the nested
     # recomposer types; shared filters with multi-valued operands; the buffer-returning calls with large results)
     for n, procs in ((2, 2), (4, 2), (16, 2), (16, 0)) if q else ((2, 2), (2, 0), (4, 2), (4, 0), (16, 2), (16, 0)):
-        cases.append({"free": {"n": n, "ops": 60 if q else 400, "runs": 2 if q else 8, "procs": procs}})
+        cases.append({"free": {"n": n, "ops": 45 if q else 400, "runs": 2 if q else 8, "procs": procs}})
     for k in range(3 if q else 8):
         cases.append({"free": {"n": 16, "ops": 16, "runs": 1, "procs": (0, 2, 4)[k % 3], "only": "Recompose", "seed": ctx.seed + k}})
     cases.append({"free": {"n": 8, "ops": 60 if q else 300, "runs": 1 if q else 4, "procs": 0, "only": "jp."}})
